@@ -321,9 +321,15 @@ func c04JSON(c *Ctx, idx int) {
 	}
 	// a complete value, then k white-space characters, then junk (a decoder that reads in
 	// chunks may never look that far); and values whose text ends exactly at a chunk boundary
-	if idx%200 == 3 {
+	// (one case in 200 - thorough: in 4000 -, taken in runs of 16 consecutive indices so that the
+	// batches share them evenly)
+	period := 200
+	if c.Tier == "thorough" {
+		period = 4000
+	}
+	if (idx/16)%period == 3 {
 		short := gen.JSONLayout(r, gen.Scalar(r))
-		if idx%400 == 3 {
+		if (idx/16/period)%2 == 0 {
 			short = gen.JSONLayout(r, gen.Array(r, 1))
 		}
 		short = strings.ReplaceAll(short, "`", "\\`")
